@@ -69,6 +69,8 @@ theorem goodM_of_tokfree (cfg : Cfg) (T : List Tid) (pc : MPc) (h : ∀ i, mPreC
   cases pc with
   | addAcq w => have := (h w).1; simp [mPreC, ind] at this
   | addTStart w => have := (h w).1; simp [mPreC, ind] at this
+  | addAcqF w => have := (h w).1; simp [mPreC, ind] at this
+  | addTStartF w => have := (h w).1; simp [mPreC, ind] at this
   | clrPoll k =>
     cases k with
     | item r =>
@@ -114,6 +116,19 @@ theorem mem_mAfterPut (s : St) (k n a c : Nat) (m : CMsg) (h : m ∈ (mAfterPut 
   · exact mem_mJoinLoop s _ _ _ m h
   · left; simpa using h
 
+/-- the end of the pass made after flagging: the work id in the manager's hands stays the same -/
+theorem msg_mAfterAddF (Y : St) (h : MsgInv Y) : MsgInv (mAfterAddF Y) := by
+  unfold mAfterAddF
+  split
+  · msg_simple Y, h
+  · split
+    · msg_simple Y, h
+    · exact h
+  · exact h
+
+theorem msg_mAddF (X : St) (h : MsgInv { X with mpc := .none }) : MsgInv (mAddF X) :=
+  msg_mAfterAddF _ (msg_mAdd X h)
+
 theorem msg_mAfterFlag (X : St) (h : MsgInv { X with mpc := .none }) : MsgInv (mAfterFlag X) := by
   unfold mAfterFlag
   split
@@ -131,7 +146,7 @@ theorem msg_mAfterFlag (X : St) (h : MsgInv { X with mpc := .none }) : MsgInv (m
     · intro j; exact msg_val_failAll _ h X.pending .excShutdown (by simp) (by simp) (by simp) _ (by simp [failAll]) j
   · split
     · msg_simple _, h
-    · exact msg_mAdd X h
+    · exact msg_mAddF X h
 
 theorem msg_mProcess (s : St) (r : Option RMsg) (h : MsgInv s) (hpc : s.mpc = .clrPoll (.item r)) :
     MsgInv (mProcess s r) := by
